@@ -65,14 +65,33 @@ def settings(f):
 def pitch_classes(f):
     return sorted(set(k % 12 for (_, k) in note_ons(f)))
 
+def pitch_groups(f):
+    """the pitches struck together, in order of time (ticks dropped: timing is C02's business)"""
+    ons = sorted((ev[0], ev[3][0]) for tr in f['tracks'] for ev in tr if ev[1] == 'midi' and ev[2] & 0xF0 == 0x90 and ev[3][1] > 0)
+    groups, last = [], None
+    for t, k in ons:
+        if t != last:
+            groups.append([]); last = t
+        groups[-1].append(k)
+    return [sorted(g) for g in groups]
+
+def note_timing(f):
+    """when notes start and stop, per track, in file order (pitches dropped: they are C01's business)"""
+    return [(ti, ev[0], 'on' if (ev[2] & 0xF0 == 0x90 and ev[3][1] > 0) else 'off')
+            for ti, tr in enumerate(f['tracks']) for ev in tr if ev[1] == 'midi' and ev[2] & 0xF0 in (0x80, 0x90)]
+
+# what each property says about a written file.  C06 (N tracks vs one track) is decided on the real code alone by the
+# harness (sibling runs), C08 by the strict reader on the real bytes, C09 only by the outcome class: for those a
+# difference between real bytes and model bytes is not by itself a failing input.
 PROJECTIONS = {
-    'C01': lambda f: note_ons(f),
-    'C02': lambda f: notes_in_order(f),
+    'C01': lambda f: pitch_groups(f),
+    'C02': lambda f: note_timing(f),
     'C05': lambda f: note_ons(f),
-    'C06': lambda f: (merged(f), eots(f)),
+    'C06': lambda f: (f['ntrks'], eots(f)),
     'C07': lambda f: settings(f),
-    'C08': lambda f: (f['format'], f['ntrks'], f['division'], [len(t) for t in f['tracks']], merged(f), eots(f)),
-    'C16': lambda f: note_ons(f),
+    'C08': lambda f: 'a file (well-formedness is decided by the strict reader on the real bytes)',
+    'C09': lambda f: 'a file',
+    'C16': lambda f: pitch_groups(f),
     'C17': lambda f: pitch_classes(f),
 }
 
